@@ -31,6 +31,17 @@ PROPS = {
     "C05": dict(mode="model", profile="ttl", **tiers(1500, 60, 40000, 120),
                 rule=GEN_RULE + "non-trivial = at least one hit within 1 ms before the deadline and at least one write that moved an existing deadline",
                 needs=["hits_within_1ms_of_deadline", "writes_moving_a_deadline"]),
+    "C06": dict(mode="sched", profile="all", engine_bin="sched",
+                quick={"cases": 400, "max_size": 30, "env": {"VERIF_SCHED_EXHAUST": "60", "VERIF_SCHED_MAXOPS": "2"}},
+                thorough={"cases": 4000, "max_size": 40, "env": {"VERIF_SCHED_EXHAUST": "3000", "VERIF_SCHED_MAXOPS": "3"}, "timeout": 7000},
+                engine="E3 sched (g++ ASan+UBSan, -DCAPPUCCINO_VERIF_HOOKS), baton scheduler + sequential re-execution search",
+                rule="programs = (container with thread_safe::yes, capacity 1-3, 3-5 keys, sequential prefix, 2-3 threads x 1-3 operations from the whole vocabulary incl. range forms, "
+                     "clean, age, clear, update_ttl and the observers, sequential suffix of scans / evicting inserts / clock steps) drawn by rapidcheck; each program is run under up to 6 "
+                     "generated schedules plus a depth-first enumeration of its lock-granularity schedule tree (capped per tier; programs_fully_enumerated counts complete trees); "
+                     "distinct = hash of the program text; non-trivial = in at least one run an operation of another thread acquired the lock between invocation and response of an operation",
+                assumptions=["schedule points are operation invocation and lock acquisition: interleavings inside unlocked code are below the granularity (sampled by C07's engine instead)",
+                             "a method that omits the lock has no schedule point and runs atomically here (C07 catches that mutation)",
+                             "the clock is constant during the concurrent phase, as the property stipulates"]),
     "C07": dict(driver="race", mode="pairwise",
                 quick={"iters": 30, "reps": 1, "programs": 40, "prog_ops": 25},
                 thorough={"iters": 300, "reps": 3, "programs": 2000, "prog_ops": 40},
@@ -90,7 +101,7 @@ PROPS = {
 }
 
 # ---- text for MANIFEST.json ---------------------------------------------------------------------------
-HOOK_COMMITS = []
+HOOK_COMMITS = ["53105b3"]
 _E1 = "E1 seq"
 _NOTE_MODEL = ("trusted: the reference model in src/model.hpp + src/engine.cpp (written from the property statements), the adapters, "
                "the link-time replaced clock/random_device, g++ sanitizers; bounded: capacity <= 33, universe <= capacity+3, histories <= 120 operations")
@@ -110,6 +121,9 @@ MANIFEST_TEXT = {
     "C03": _mt(_E1, _PBT + "the model's permitted-loss rule (peek scan of all live keys after every call)", "bounded exploration; every loss of a live key must be one the statement permits", _NOTE_MODEL, "DESIGN.md 5/C03"),
     "C04": _mt(_E1, _PBT + "the model's deadlines on a harness-owned clock (exact-deadline and +-1 ns probes)", "bounded exploration with constructed boundary instants", _NOTE_MODEL, "DESIGN.md 5/C04"),
     "C05": _mt(_E1, _PBT + "the model's deadlines on a harness-owned clock (deadline-1 ns probes, deadline-moving writes)", "bounded exploration with constructed boundary instants", _NOTE_MODEL, "DESIGN.md 5/C05"),
+    "C06": _mt("E3 sched", "property-based testing of generated thread programs under harness-owned schedules (generated + depth-first enumerated at lock granularity); oracle = linearizability search by sequential re-execution of the same code",
+               "bounded exploration: 2-3 threads x 1-3 operations, lock-granularity schedules exhaustive for the small programs counted in the evidence, sampled otherwise",
+               "trusted: the scheduler and the linearization search in src/sched.cpp; the sequential behaviour itself is pinned by C01-C20; hooks ON only in this engine (lock.hpp, CAPPUCCINO_VERIF_HOOKS)", "DESIGN.md 6.1"),
     "C07": _mt("E4 race", "dynamic race detection (ThreadSanitizer happens-before) over the completely enumerated public method-pair matrix with generated arguments and prefixes, plus generated multi-thread programs",
                "bounded exploration: the pair matrix is complete, argument space and schedules are sampled; a report is a data race in the C++ memory model on the executed path",
                "trusted: ThreadSanitizer (clang 14), uninstrumented libstdc++.so is invisible; hooks off (production headers)", "DESIGN.md 6.2"),
@@ -131,5 +145,4 @@ MANIFEST_TEXT = {
     "C20": _mt(_E1, "differential property-based testing: instance after clear() vs freshly constructed twin, same generated continuation", "bounded exploration on utlru and ut_map", _NOTE_TWIN, "DESIGN.md 5/C20"),
 }
 NOT_APPLICABLE = [
-    {"property_id": "C06", "reason": "check under construction in this round (schedule engine E3); will be claimed once built"},
 ]
